@@ -279,6 +279,59 @@ fn derives(m: &Model, ctx: &mut Ctx) {
     } else {
         ctx.fail_closed("C19.derives", "anchor not found: Rasn::new");
     }
+    // the derive line itself: required_annotations evaluated on merged derive lists (REQUIRED_DERIVES followed by the user's
+    // derives in every position of `Copy`) x needs_copy — every derive exactly once, in order, Copy iff needed or asked for
+    if let Some(f) = anchor_fn(m, ctx, "C19.derives", Some("Rasn"), "required_annotations", None) {
+        use crate::eval::{Env, Evaluator, Val};
+        use std::collections::BTreeMap as Map;
+        let base: Vec<String> = req.and_then(|c| str_array(&c.expr)).unwrap_or_default();
+        if base.is_empty() {
+            ctx.fail_closed("C19.derives", "REQUIRED_DERIVES is not an array of string literals");
+        }
+        let consts = const_resolver(m);
+        let param = f.sig.inputs.iter().filter_map(|a| match a { syn::FnArg::Typed(t) => Some(tok(&t.pat)), _ => None }).next().unwrap_or("needs_copy".into());
+        for user in [vec![], vec!["Copy"], vec!["Copy", "PartialOrd"], vec!["PartialOrd", "Copy"], vec!["PartialOrd", "Copy", "Ord"], vec!["Default"]] {
+            for needs_copy in [false, true] {
+                let key = format!("derive-line:user={:?}:needs_copy={}", user, needs_copy);
+                ctx.oblige("C19.derives", &key, true);
+                let merged: Vec<String> = base.iter().cloned().chain(user.iter().map(|s| s.to_string())).collect();
+                let log = std::cell::RefCell::new(Vec::<String>::new());
+                let hook = |_: &Evaluator, name: &str, a: &[Val]| -> Option<Result<Val, String>> {
+                    if name == "TokenStream::from_str" {
+                        if let Some(Val::Str(s)) = a.first() {
+                            log.borrow_mut().push(s.clone());
+                            return Some(Ok(Val::Ctor("Ok".into(), vec![Val::Sym(s.clone())], Map::new())));
+                        }
+                    }
+                    None
+                };
+                let ev = Evaluator { consts: &consts, call_hook: &hook, inline: None };
+                let mut cfg = Map::new();
+                cfg.insert("type_annotations".to_string(), Val::List(vec![]));
+                let mut me = Map::new();
+                me.insert("required_derives".to_string(), Val::List(merged.iter().map(|s| Val::Str(s.clone())).collect()));
+                me.insert("config".to_string(), Val::Ctor("Config".into(), vec![], cfg));
+                let mut env = Env::new();
+                env.insert("self".into(), Val::Ctor("Rasn".into(), vec![], me));
+                env.insert(param.clone(), Val::Bool(needs_copy));
+                match ev.eval_fn_body(&f.block, &mut env) {
+                    Ok(Val::Ctor(ok, _, _)) if ok == "Ok" => {
+                        let got = log.borrow().clone();
+                        let mut want = merged.clone();
+                        if needs_copy && !want.iter().any(|d| d == "Copy") {
+                            want.push("Copy".into());
+                        }
+                        if got != want {
+                            ctx.violate("C19.derives", "derive-line", &f.file, f.line,
+                                &format!("required_annotations with user derives {:?} and needs_copy={} derives {:?}; every derive must appear exactly once ({:?}): a derive listed twice does not compile, a missing one changes the type", user, needs_copy, got, want));
+                        }
+                    }
+                    Ok(o) => ctx.fail_closed("C19.derives", &format!("[{}]: required_annotations evaluates to {}", key, o.show())),
+                    Err(e) => ctx.fail_closed("C19.derives", &format!("[{}]: {}", key, e)),
+                }
+            }
+        }
+    }
     // every type template call passes join_annotations(.., .., true)
     let mut n = 0;
     for f in m.fns.iter().filter(|f| f.module.starts_with("generator::rasn::builder")) {
